@@ -355,6 +355,30 @@ func checkResizeBounds(c *Ctx, p *Prog, rule string) {
 			extra += s + "; "
 		}
 	}
+	// the bounds may be hoisted into minima (keepW := cb.w; if w < keepW { keepW = w }): x < keepW then
+	// stands for both x < w and x < cb.w, provided keepW is the minimum of exactly these two
+	for _, g := range rawGuardsAt(copyStore.Block()) {
+		bo, ok := g.Cond.(*ssa.BinOp)
+		if !ok || bo.Op != token.LSS || !g.Positive {
+			continue
+		}
+		phi, isPhi := bo.Y.(*ssa.Phi)
+		if !isPhi {
+			continue
+		}
+		for _, ax := range []struct{ v, prm, fld string }{{"x", "w", "w"}, {"y", "h", "h"}} {
+			if valName(bo.X) != ax.v {
+				continue
+			}
+			if minOfParamAndField(phi, fn, ax.prm, "tcell.CellBuffer", ax.fld) {
+				want[ax.v+" < "+ax.prm] = true
+				want[ax.v+" < cb."+ax.fld] = true
+				for _, form := range []string{valName(bo.X) + " < " + valName(bo.Y), valName(bo.Y) + " > " + valName(bo.X)} {
+					extra = strings.Replace(extra, form+"; ", "", 1)
+				}
+			}
+		}
+	}
 	missing := ""
 	for k, v := range want {
 		if !v {
@@ -761,4 +785,55 @@ func checkFiniNotLockedOut(c *Ctx, p *Prog, rule, tname string) {
 		}
 	}
 	c.Check(!locked, rule, tname+".Fini:closes-quit-before-locking", p.pos(closer.Pos()), "the quit channel is closed before Fini asks for the screen mutex (a SetSize waiting for queue room holds it)")
+}
+
+// minOfParamAndField: phi is min(parameter prm of fn, owner.field) written out with an if: its edges are
+// exactly these two values, and the one that replaces the other does so on the edge of `new < running`.
+func minOfParamAndField(phi *ssa.Phi, fn *ssa.Function, prm, owner, field string) bool {
+	if len(phi.Edges) != 2 {
+		return false
+	}
+	isPrm := func(v ssa.Value) bool { p, ok := v.(*ssa.Parameter); return ok && p.Name() == prm && p.Parent() == fn }
+	isFld := func(v ssa.Value) bool {
+		r, _, ok := loadedField(v)
+		return ok && r.Owner == owner && r.Name == field
+	}
+	var pi, fi = -1, -1
+	for i, e := range phi.Edges {
+		if isPrm(e) {
+			pi = i
+		}
+		if isFld(e) {
+			fi = i
+		}
+	}
+	if pi < 0 || fi < 0 {
+		return false
+	}
+	// one of the two edges comes from a block that is entered only when its value is the smaller one
+	for _, idx := range []int{pi, fi} {
+		e, other := phi.Edges[idx], phi.Edges[1-idx]
+		pred := phi.Block().Preds[idx]
+		var conds []rawGuard
+		conds = append(conds, rawGuardsAt(pred)...)
+		if len(pred.Instrs) > 0 {
+			if iff, isIf := pred.Instrs[len(pred.Instrs)-1].(*ssa.If); isIf {
+				conds = append(conds, expandCond(iff.Cond, pred.Succs[0] == phi.Block(), 0)...)
+			}
+		}
+		for _, g := range conds {
+			bo, ok := g.Cond.(*ssa.BinOp)
+			if !ok {
+				continue
+			}
+			less := (bo.Op == token.LSS && g.Positive && bo.X == e && sameValue(bo.Y, other)) ||
+				(bo.Op == token.GTR && g.Positive && bo.Y == e && sameValue(bo.X, other)) ||
+				(bo.Op == token.LEQ && g.Positive && bo.X == e && sameValue(bo.Y, other)) ||
+				(bo.Op == token.GEQ && !g.Positive && bo.X == e && sameValue(bo.Y, other))
+			if less {
+				return true
+			}
+		}
+	}
+	return false
 }
